@@ -80,3 +80,6 @@ def holder(run, P):
 def stalescalar(run, P):
     from rules import r_stalecopy
     r_stalecopy.run_scalar(run, P, units=('C01_stalescalar.c',))
+def uaf(run, P):
+    from rules import r_uaf
+    r_uaf.run(run, P)
